@@ -55,8 +55,31 @@ def key_st(kind="any"):
     return st.one_of(_text.map(ek), _bytes.map(ek))
 
 
+def _with_twins(pool, sel):
+    """sometimes put a text key and its exact UTF-8 bytes twin (or a bytes key and its text decoding) into the same pool: under the
+    md5/sha256 strategies they are the same element, under FNV-1a only when ASCII - a cache or table keyed the wrong way shows here"""
+    if sel % 3:
+        return pool
+    out = list(pool)
+    for k in pool[: 1 + sel % 4]:
+        key = dk(k)
+        if isinstance(key, str):
+            t = ek(key.encode("utf-8"))
+        else:
+            try:
+                t = ek(key.decode("utf-8"))
+            except UnicodeDecodeError:
+                continue
+        if t not in out:
+            out.append(t)
+    return out
+
+
 def pool_st(lo=2, hi=10, kind="any"):
-    return st.lists(key_st(kind), min_size=lo, max_size=hi, unique=True)
+    base = st.lists(key_st(kind), min_size=lo, max_size=hi, unique=True)
+    if kind == "ascii":
+        return base
+    return st.tuples(base, st.integers(0, 11)).map(lambda t: _with_twins(t[0], t[1]))
 
 
 # ------------------------------------------------------------------------------------------
@@ -105,6 +128,18 @@ def _h_pairs(key, depth=1):
     return [_fnv64(kb, 1469598103934665603 + 31 * (i // 2)) for i in range(depth)]
 
 
+def _h_wide(key, depth=1):
+    """160-bit values (a user hashing with sha1 and not reducing mod 2^64): Python ints of any size are valid hash values"""
+    kb = _as_bytes(key)
+    return [int.from_bytes(hashlib.sha1(kb + bytes([i % 251])).digest(), "big") for i in range(depth)]
+
+
+def _h_signed(key, depth=1):
+    """signed 64-bit values (crc / mmh3-style hashes return negative numbers)"""
+    kb = _as_bytes(key)
+    return [_fnv64(kb, 1469598103934665603 + 131 * i) - (1 << 63) for i in range(depth)]
+
+
 def _h_tiny(key, depth=1):
     """values in 0..3 only: everything collides in any geometry"""
     kb = _as_bytes(key)
@@ -150,13 +185,17 @@ def hash_by_name(name):
         f = _h_pairs
     elif name == "tiny":
         f = _h_tiny
+    elif name == "wide":
+        f = _h_wide
+    elif name == "signed":
+        f = _h_signed
     else:
         raise ValueError(name)
     _CACHE[name] = f
     return f
 
 
-GOOD_HASHES = ["default", "fnv", "md5", "sha256", "dec_int", "dec_bytes", "salted"]
+GOOD_HASHES = ["default", "fnv", "md5", "sha256", "dec_int", "dec_bytes", "salted", "wide", "signed"]
 DEGENERATE_HASHES = ["coincide", "bylen", "ident", "pairs", "tiny"]
 ALL_HASHES = GOOD_HASHES + DEGENERATE_HASHES
 
